@@ -128,6 +128,164 @@ def first_concurrent_awaits(k):
     return []
 
 
+# ------------------------------------------------------------------------------ C17: the loop stays free when a node fails; the recorded setup value is stable
+def failure_keeps_loop_free(k):
+    """two parallel async-thread nodes, one fails quickly while the other runs 1.2 s: the failure is reported
+    promptly and the event loop keeps serving a heartbeat coroutine meanwhile"""
+    slow = tawazi.xn(named(lambda x: (time.sleep(1.2), x)[1], "sc_fslow%d" % k), resource=Resource.async_thread, priority=2)
+    bad = tawazi.xn(named(lambda x: (time.sleep(0.05), (_ for _ in ()).throw(Boom("bad")))[0], "sc_fbad%d" % k), resource=Resource.async_thread, priority=1)
+
+    def desc(x):
+        return slow(x), bad(x)
+    d = tawazi.dag(named(desc, "sc_fail%d" % k), max_concurrency=2, is_async=True)
+
+    async def main():
+        gaps = []
+        stop = asyncio.Event()
+
+        async def beat():
+            last = time.time()
+            while not stop.is_set():
+                await asyncio.sleep(0.01)
+                now = time.time()
+                gaps.append(now - last)
+                last = now
+        t = asyncio.ensure_future(beat())
+        t0 = time.time()
+        try:
+            await d(1)
+            out = "returned"
+        except BaseException as e:  # noqa: BLE001
+            out = type(e).__name__
+        dt = time.time() - t0
+        stop.set()
+        await t
+        return out, dt, max(gaps or [0])
+    st = in_thread(lambda: asyncio.run(main()), 15)
+    if st[0] != "ok":
+        return ["failing AsyncDAG call: %r" % (st,)]
+    out, dt, gap = st[1]
+    msgs = []
+    if out != "TawaziBaseException":
+        msgs.append("a failing async-thread node gave %r" % out)
+    if dt > 0.7 or gap > 0.5:
+        msgs.append("an async-thread node failed after 0.05 s while a sibling was still running (1.2 s): the await raised after %.2f s and the event loop was not served for %.2f s" % (dt, gap))
+    return msgs
+
+
+def setup_value_is_stable(k):
+    """a slow first await and a fast first await of one AsyncDAG both run the (not yet recorded) setup node; the
+    value recorded by the first one to finish is the one every LATER await sees, also after the slow one finished"""
+    cnt = {"n": 0}
+    gate = threading.Event()
+
+    def load():
+        cnt["n"] += 1
+        return ("loaded", cnt["n"])
+    lx = tawazi.xn(named(load, "sc_sload%d" % k), setup=True)
+
+    def work(x, l):
+        if x == "slow":
+            gate.wait(5)
+        return (x, l)
+    wx = tawazi.xn(named(work, "sc_swork%d" % k), resource=Resource.async_thread)
+
+    def desc(x):
+        return wx(x, lx())
+    d = tawazi.dag(named(desc, "sc_stable%d" % k), max_concurrency=2, is_async=True)
+
+    async def main():
+        s = asyncio.ensure_future(d("slow"))
+        await asyncio.sleep(0.05)
+        f = await d("fast")
+        g = await d("g")
+        gate.set()
+        sv = await s
+        h = await d("h")
+        return f, g, sv, h
+    st = in_thread(lambda: asyncio.run(main()), 15)
+    if st[0] != "ok":
+        return ["concurrent first awaits with a setup node: %r" % (st,)]
+    f, g, sv, h = st[1]
+    if g[1] != h[1]:
+        return ["the setup value later awaits see changed from %r to %r when an await that had started earlier finished" % (g[1], h[1])]
+    return []
+
+
+# ------------------------------------------------------------------------------ C16: concurrent builds under a tiny switch interval
+def concurrent_builds_stress(k, seconds):
+    """4 threads build DAGs concurrently with sys.setswitchinterval(1e-6); every DAG equals the one built alone"""
+    import sys
+    fs = [tawazi.xn(named((lambda j: (lambda *a: ("f", j) + a))(j), "sc_b%d_%d" % (k, j))) for j in range(3)]
+
+    def mk(i):
+        def desc(x):
+            a = fs[0](x)
+            b = fs[1](a)
+            c = fs[2](a, b)
+            return fs[0](c)
+        return named(desc, "sc_build%d_%d" % (k, i))
+    ref = sorted(tawazi.dag(mk(0)).exec_nodes.keys())
+    errs = []
+    stop = time.time() + seconds
+
+    def worker(i):
+        n = 0
+        while time.time() < stop and not errs:
+            try:
+                d = tawazi.dag(mk(0))
+                ids = sorted(d.exec_nodes.keys())
+                if ids != ref:
+                    errs.append("a DAG built while other threads were building has nodes %s, built alone %s" % (ids, ref))
+                elif d(1) != ("f", 0, ("f", 2, ("f", 0, 1), ("f", 1, ("f", 0, 1)))):
+                    errs.append("a DAG built while other threads were building returns %r" % (d(1),))
+            except BaseException as e:  # noqa: BLE001
+                errs.append("building a DAG while other threads were building raised %s: %s" % (type(e).__name__, str(e)[:120]))
+            n += 1
+    old = sys.getswitchinterval()
+    sys.setswitchinterval(1e-6)
+    try:
+        ths = [threading.Thread(target=worker, args=(i,), daemon=True, name="worker") for i in range(4)]
+        for t in ths:
+            t.start()
+        for t in ths:
+            t.join(seconds + 20)
+        if any(t.is_alive() for t in ths):
+            errs.append("concurrent builds did not finish")
+    finally:
+        sys.setswitchinterval(old)
+    return errs[:2]
+
+
+# ------------------------------------------------------------------------------ C10 / C13: a debug node inside a deactivated nested DAG
+def debug_node_in_deactivated_nested_dag(k):
+    ran = []
+    inc = tawazi.xn(named(lambda x: (ran.append("inc"), x + 1)[1], "sc_dinc%d" % k))
+    probe = tawazi.xn(named(lambda x: ran.append("probe"), "sc_dprobe%d" % k), debug=True)
+
+    def inner(x):
+        y = inc(x)
+        probe(y)
+        return y
+    inner_dag = tawazi.dag(named(inner, "sc_dinner%d" % k))
+    other = tawazi.xn(named(lambda x: (ran.append("other"), x)[1], "sc_dother%d" % k))
+
+    def outer(x, flag):
+        return inner_dag(x, twz_active=flag), other(x)
+    outer_dag = tawazi.dag(named(outer, "sc_douter%d" % k), is_async=bool(k % 2))
+    msgs = []
+    for flag, exp_ran, exp_val in ((False, ["other"], (None, 5)), (0, ["other"], (None, 5)), (True, ["inc", "other", "probe"], (6, 5))):
+        del ran[:]
+        tawazi.cfg.RUN_DEBUG_NODES = True
+        try:
+            st = in_thread((lambda: asyncio.run(outer_dag(5, flag))) if k % 2 else (lambda: outer_dag(5, flag)), 10)
+        finally:
+            tawazi.cfg.RUN_DEBUG_NODES = False
+        if st != ("ok", exp_val) or sorted(ran) != exp_ran:
+            msgs.append("nested DAG with a debug node, RUN_DEBUG_NODES on, twz_active=%r: %r, executed %s; expected %r, executed %s" % (flag, st, sorted(ran), exp_val, exp_ran))
+    return msgs
+
+
 def run(pid, tier, seed, res):
     n = 2 if tier == "quick" else 8
     for k in range(n):
@@ -136,6 +294,20 @@ def run(pid, tier, seed, res):
                 res.evaluations += 1
                 for msg in stragglers_then_failure(2 * k + int(fl), fl):
                     res.hit("C14", "monitor", msg, dict(engine="scenario", kind="monitor", scenario="stragglers_then_failure", k=k, is_async=fl))
+        if pid == "C17":
+            res.evaluations += 2
+            for msg in failure_keeps_loop_free(k):
+                res.hit("C17", "monitor", msg, dict(engine="scenario", kind="monitor", scenario="failure_keeps_loop_free", k=k))
+            for msg in setup_value_is_stable(k):
+                res.hit("C17", "monitor", msg, dict(engine="scenario", kind="monitor", scenario="setup_value_is_stable", k=k))
+        if pid == "C16" and k == 0:
+            res.evaluations += 1
+            for msg in concurrent_builds_stress(k, 2.0 if tier == "quick" else 15.0):
+                res.hit("C16", "monitor", msg, dict(engine="scenario", kind="monitor", scenario="concurrent_builds_stress", k=k))
+        if pid in ("C10", "C13"):
+            res.evaluations += 1
+            for msg in debug_node_in_deactivated_nested_dag(k):
+                res.hit(pid, "monitor", msg, dict(engine="scenario", kind="monitor", scenario="debug_node_in_deactivated_nested_dag", k=k))
         if pid in ("C09", "C17"):
             res.evaluations += 2
             for msg in nested_runtime_call(k):
